@@ -1,8 +1,9 @@
 #!/usr/bin/env python3
-"""Evaluate seeded changes: for each seed directory (patch.diff, demo_test.go, notes.md) make a scratch
-worktree of /repo, apply the change, confirm it (builds, suite passes, demo fails with / passes without),
-run the checks against the worktree (VERIF_REPO), record which checks report a violation, remove the worktree.
-usage: run_seeds.py <seed-root> <out.json> [ids...]"""
+"""Evaluate seeded changes: for each seed directory /verif/seeded/<Cxx><v>/ (patch.diff, demo_test.go, notes.md) make a
+scratch worktree of /repo, apply the change, confirm it (builds, suite passes, demo fails with / passes without),
+run the checks against the worktree (VERIF_REPO), record which checks report a violation, remove the worktree,
+and write <seed>/meta.json.
+usage: run_seeds.py <seed-root> <out.json> [--only-target] [ids...]"""
 import sys, os, re, json, subprocess, shutil, concurrent.futures, tempfile
 ROOT = os.path.dirname(os.path.dirname(os.path.abspath(__file__)))
 ENV = dict(os.environ, GOFLAGS="-mod=mod", GOPROXY="off", GOSUMDB="off", GOTOOLCHAIN="local")
@@ -29,7 +30,8 @@ def evaluate(seed_dir, sid, target):
     try:
         demo = os.path.join(seed_dir, "demo_test.go")
         pkg = re.search(r"^package\s+(\w+)", open(demo).read(), re.M).group(1)
-        ddir = os.path.join(wt, PKGDIR.get(pkg, "."))
+        md = re.match(r"//\s*dir:\s*(\S+)", open(demo).read())
+        ddir = os.path.join(wt, md.group(1) if md else PKGDIR.get(pkg, "."))
         m = re.search(r"func (Test\w+)", open(demo).read())
         tname = m.group(1) if m else "Test"
         # demo on the unmodified tree
@@ -54,7 +56,7 @@ def evaluate(seed_dir, sid, target):
         os.remove(os.path.join(ddir, "zz_seed_demo_test.go"))
         env = dict(ENV, VERIF_REPO=wt, VERIF_BUILD=bd, VERIF_NO_SEARCH="1")
         res["checks"] = {}
-        order = [target] + [p for p in ALL if p != target]
+        order = [target] + ([] if ONLY_TARGET else [p for p in ALL if p != target])
         for p in order:
             e = dict(env)
             if p == target:
@@ -83,24 +85,57 @@ def evaluate(seed_dir, sid, target):
     return res
 
 
+ONLY_TARGET = False
+
+
+def write_meta(sd, r):
+    notes = ""
+    if os.path.exists(os.path.join(sd, "notes.md")):
+        notes = open(os.path.join(sd, "notes.md")).read()
+    old = {}
+    mp = os.path.join(sd, "meta.json")
+    if os.path.exists(mp):
+        old = json.load(open(mp))
+    meta = {
+        "id": r["id"], "breaks_property": r["target"],
+        "needs_to_manifest": old.get("needs_to_manifest") or notes[:1500],
+        "source": "independent sub-agent given only the property text and a scratch worktree",
+        "confirmed": {k: r.get(k) for k in ("applies", "suite_passes_with", "demo_fails_with", "demo_passes_without")},
+        "what_was_run": ["git worktree add --detach <scratch> HEAD; go test -run <TestSeed...> (demo on the unchanged tree)",
+                         "git apply patch.diff; go build ./... && go test -vet=off -count=1 ./... (suite with the change)",
+                         "go test -run <TestSeed...> (demo with the change)",
+                         "VERIF_REPO=<scratch> VERIF_BUILD=<scratch build> ./check <ID> --tier quick for every property"],
+        "detected_by_target_check": r.get("detected_by_target"),
+        "detected_by": r.get("detected_by", old.get("detected_by", [])),
+        "broken_checks": r.get("broken_checks", []),
+        "target_replay": r.get("replay"),
+    }
+    if ONLY_TARGET and old.get("detected_by"):
+        meta["detected_by"] = sorted(set(old["detected_by"]) | set(meta["detected_by"])) if r.get("detected_by_target") else [p for p in old["detected_by"] if p != r["target"]]
+    json.dump(meta, open(mp, "w"), indent=1)
+
+
 def main():
+    global ONLY_TARGET
     root, outp = sys.argv[1], sys.argv[2]
-    want = set(sys.argv[3:])
+    args = sys.argv[3:]
+    if "--only-target" in args:
+        ONLY_TARGET = True
+        args.remove("--only-target")
+    want = set(args)
     jobs = []
-    for prop in sorted(os.listdir(root)):
-        pd = os.path.join(root, prop)
-        if not (os.path.isdir(pd) and re.match(r"^C\d\d$", prop)):
+    for sid in sorted(os.listdir(root)):
+        sd = os.path.join(root, sid)
+        m = re.match(r"^(C\d\d)\w+$", sid)
+        if not (os.path.isdir(sd) and m and os.path.exists(os.path.join(sd, "patch.diff"))):
             continue
-        for v in sorted(os.listdir(pd)):
-            sd = os.path.join(pd, v)
-            if os.path.exists(os.path.join(sd, "patch.diff")):
-                sid = "%s%s" % (prop, v)
-                if not want or sid in want or prop in want:
-                    jobs.append((sd, sid, prop))
+        prop = m.group(1)
+        if not want or sid in want or prop in want:
+            jobs.append((sd, sid, prop))
     results = {}
     if os.path.exists(outp):
         results = json.load(open(outp))
-    with concurrent.futures.ThreadPoolExecutor(max_workers=3) as ex:
+    with concurrent.futures.ThreadPoolExecutor(max_workers=4) as ex:
         futs = {ex.submit(evaluate, *j): j for j in jobs}
         for f in concurrent.futures.as_completed(futs):
             j = futs[f]
@@ -110,6 +145,8 @@ def main():
                 r = {"id": j[1], "error": repr(e)}
             results[j[1]] = r
             json.dump(results, open(outp, "w"), indent=1)
+            if "applies" in r:
+                write_meta(j[0], r)
             print(j[1], "applies=%s suite=%s demo_fails=%s demo_ok_without=%s target_detects=%s by=%s" % (
                 r.get("applies"), r.get("suite_passes_with"), r.get("demo_fails_with"), r.get("demo_passes_without"),
                 r.get("detected_by_target"), ",".join(r.get("detected_by", []))), flush=True)
